@@ -556,3 +556,16 @@ Proof.
   - intros Ho. destruct Wf2 as (_ & _ & Ha & _). specialize (Ha Ho). split; [exact Ha|].
     unfold depends_on_input. rewrite Ha. reflexivity.
 Qed.
+
+Lemma vocabulary_meaning srcs s d' s2 m m1 m2 objs :
+  (whole m s <-> (NoDup (muri_blocks m) /\ incl (muri_blocks m) (live_ids s) /\ incl (text_blocks m) (live_ids s)))
+  /\ (apart m1 m2 <-> (forall b, In b (muri_blocks m1) -> ~ In b (muri_blocks m2)))
+  /\ (store_ok objs s <-> (balanced objs s /\ nofault s /\ Forall mwf objs))
+  /\ (owned_beside srcs s d' s2 <->
+      (m_owner d' = true /\ all_owned d' = true /\ depends_on_input d' = false /\ mwf d'
+       /\ fresh_blocks s s2 d' /\ nofault s2 /\ wf s2 /\ owns d' s2 /\ whole d' s2
+       /\ (forall o, In o srcs -> owns o s2 /\ apart o d')
+       /\ incl (live_ids s) (live_ids s2) /\ Permutation (live_ids s2) (muri_blocks d' ++ live_ids s)
+       /\ bad_frees s2 = bad_frees s
+       /\ (let sf := release_all srcs s2 in wf sf /\ owns d' sf /\ whole d' sf /\ bad_frees sf = bad_frees s))).
+Proof. split; [apply iff_refl|]. split; [apply iff_refl|]. split; [apply iff_refl|apply owned_beside_meaning]. Qed.
